@@ -114,6 +114,8 @@ func c07Render(rng *RNG, entries []c07entry, width int, policy int) string {
 
 func c07Text(rng *RNG) string {
 	pool := []string{"A", "z", "é", "ß", "Ω", "中", "あ", "\U0001D400", "\U0001F600", "fi", "ffi", "é", "𝒳y", "—", " ", "한", "äb",
+		// characters that are not in normal form C although they carry no combining mark (singleton decompositions, conjoining jamo)
+		"\u2126", "\u212A", "\u212B", "\uF900", "\uFA30", "\u1100\u1161", "\u2329", "\u1F71", "x\u2000y", "\u0344", "A\u030A",
 		// boundary values of the UTF-16 forms and of byte carries
 		"\U00010000", "\U000103FF", "\U0010FC00", "\U0010FFFF", "\uFFFF", "\uE000", "\uD7FF", "\u00FE", "\u01FD", "\U0001D4FD", "\U0001F3FE", "f\u00FF"}
 	return pool[rng.Intn(len(pool))]
@@ -229,6 +231,10 @@ func init() {
 			code := uint32(rng.Intn(200))
 			if width > 1 {
 				code = uint32(rng.Intn(1 << 14))
+			}
+			if width > 2 && rng.Chance(2, 3) {
+				// codes whose leading bytes are not zero: read with a narrower width they are different codes
+				code = uint32(rng.Intn(1<<uint(8*width-2))) | uint32(1+rng.Intn(200))<<uint(8*(width-1))
 			}
 			for len(entries) < ne {
 				if rng.Chance(2, 3) {
